@@ -14,6 +14,7 @@ import (
 type Clause struct {
 	Kind  string // requires | ensures | invariant | step | decreases | assume
 	Label string
+	Uses  []string
 	Text  string
 	Expr  *Expr
 	Line  int
@@ -172,11 +173,22 @@ func parseContractFile(path string) (*ContractFile, error) {
 				label = rest[1:end]
 				text = strings.TrimSpace(rest[end+1:])
 			}
+			// [label:dep1,dep2] names the clauses (of this contract or of callees) the proof of this clause
+			// relies on besides the clause itself; it selects assumptions for the narrowest query variant
+			var uses []string
+			if i := strings.Index(label, ":"); i >= 0 && !strings.HasPrefix(label, "callback:") {
+				for _, u := range strings.Split(label[i+1:], ",") {
+					if u = strings.TrimSpace(u); u != "" {
+						uses = append(uses, u)
+					}
+				}
+				label = strings.TrimSpace(label[:i])
+			}
 			ex, err := parseExpr(text)
 			if err != nil {
 				return nil, fmt.Errorf("line %d: %v in %q", it.line, err, text)
 			}
-			cl := &Clause{Kind: kw, Label: label, Text: text, Expr: ex, Line: it.line}
+			cl := &Clause{Kind: kw, Label: label, Uses: uses, Text: text, Expr: ex, Line: it.line}
 			if kw == "invariant" || kw == "step" {
 				if curLoop == nil {
 					return nil, fmt.Errorf("line %d: %s outside loop", it.line, kw)
